@@ -300,6 +300,19 @@ func (tt *termTable) eq(a, b *T) *T {
 	if a.w > 0 && a.ivOK && b.ivOK && (a.hi < b.lo || b.hi < a.lo) {
 		return tt.boolc(false)
 	}
+	// int(x) == int(y) / int(x) == c over reals: compare the truncations as integers-in-Real
+	// instead of through int2bv (which every back end bit-blasts through div/mod chains).
+	// Equivalent whenever the truncations fit the width; out-of-range float->int conversion
+	// is implementation-defined in Go, and any counterexample is replayed natively anyway.
+	if a.op == "real2bv" && b.op == "real2bv" && a.w == b.w {
+		return tt.eq(tt.rtrunc(a.args[0]), tt.rtrunc(b.args[0]))
+	}
+	if a.op == "real2bv" && b.op == "bvconst" {
+		return tt.eq(tt.rtrunc(a.args[0]), tt.realc(new(big.Rat).SetInt64(sext(b.k, a.w))))
+	}
+	if b.op == "real2bv" && a.op == "bvconst" {
+		return tt.eq(tt.rtrunc(b.args[0]), tt.realc(new(big.Rat).SetInt64(sext(a.k, b.w))))
+	}
 	if a.id > b.id {
 		a, b = b, a
 	}
@@ -553,6 +566,15 @@ func (tt *termTable) bv2real(a *T, signed bool) *T {
 		k = 1
 	}
 	return tt.intern("bv2real", sortReal, k, "", nil, a)
+}
+
+// rtrunc: truncation toward zero of a real, as a real
+func (tt *termTable) rtrunc(a *T) *T {
+	if a.op == "realconst" {
+		q := new(big.Int).Quo(a.rat.Num(), a.rat.Denom())
+		return tt.realc(new(big.Rat).SetInt(q))
+	}
+	return tt.intern("rtrunc", sortReal, 0, "", nil, a)
 }
 
 // real -> bv of width w, truncating toward zero (Go float->int conversion)
@@ -848,6 +870,8 @@ func (tt *termTable) eval1(t *T, m *model) evalV {
 		return evalV{ok: true, u: uint64(q.Int64()) & mask(t.w)}
 	case "floor":
 		return evalV{ok: true, r: ratFloor(av[0].r)}
+	case "rtrunc":
+		return evalV{ok: true, r: new(big.Rat).SetInt(new(big.Int).Quo(av[0].r.Num(), av[0].r.Denom()))}
 	}
 	if v, ok := evalBVBin(t.op, t.w, av[0].u, av[1].u); ok {
 		return evalV{ok: true, u: v}
@@ -895,6 +919,9 @@ func (tt *termTable) smt(t *T, emit func(string)) string {
 		s = fmt.Sprintf("((_ int2bv %d) (ite (>= %s 0.0) (to_int %s) (- (to_int (- %s)))))", t.w, a, a, a)
 	case "floor":
 		s = "(to_real (to_int " + tt.smt(t.args[0], emit) + "))"
+	case "rtrunc":
+		a := tt.smt(t.args[0], emit)
+		s = fmt.Sprintf("(to_real (ite (>= %s 0.0) (to_int %s) (- (to_int (- %s)))))", a, a, a)
 	default:
 		var sb strings.Builder
 		sb.WriteByte('(')
